@@ -1,7 +1,7 @@
 #!/bin/bash
 # tools/runall.sh [quick|thorough]: every claimed check on the unchanged tree; regenerates evidence/*.json
 tier=${1:-quick}
-cd /verif
+cd "$(dirname "$0")/.."
 test -z "$(git -C /repo status --porcelain)" || { echo "/repo is not clean"; exit 2; }
 rc=0
 for p in $(/venv/bin/python -c "import json;print(' '.join(c['property_id'] for c in json.load(open('MANIFEST.json'))['checks']))"); do
